@@ -99,6 +99,8 @@ OPS = ['meta_set', 'meta_append', 'meta_extend', 'meta_update', 'col_set', 'col_
        'extend', 'iadd', 'setitem', 'row_mutate',
        # the same key again: overwrite in place / relocate an existing key (the store paths differ inside the maps)
        'meta_set_same', 'col_set_same', 'meta_relocate_same', 'col_append_same']
+# derived grids: the history continues on a slice / filter result, which must keep covering its content
+DERIVE = ['take_slice', 'take_filter']
 CTOR_OPS = ['ctor_meta', 'ctor_col', 'ctor_coldict']
 BYPASS = ('col_plain', 'row_mutate')
 
@@ -185,6 +187,8 @@ def judge_history(ctx, hszinc, ver, ctor, hist):
     g, exc = build(hszinc, ver, ctor)
     bypassed = False
     stored3 = False
+    derived = False     # after a slice / filter the grid carries its parent's version: refusing (explicit) or upgrading
+    #                     (still automatic) are both acceptable for a 3.0-only store, carrying it under a pre-3.0 label is not
     if ctor is not None:
         k = ctor[1]
         if k in K3 and pre3:
@@ -200,6 +204,24 @@ def judge_history(ctx, hszinc, ver, ctor, hist):
             return
         stored3 = k in K3
     for step, (op, k) in enumerate(hist):
+        if op in DERIVE:
+            try:
+                g = g[0:] if op == 'take_slice' else g.filter('a or not a')
+            except Exception as e:   # noqa
+                if bypassed and type(e).__name__ == 'ValueError':
+                    # the derived grid's constructor re-validates column metadata: it refuses what was smuggled in
+                    ctx.count('derived grid refused smuggled 3.0 data (ValueError)')
+                    return
+                viol('derive-raises:' + type(e).__name__, '-', ['op=' + op], 'deriving a grid raised %r' % (e,))
+                return
+            derived = True
+            where = grid_contains3(hszinc, g)
+            ctx.count('derived grids checked')
+            if where and not bypassed and ref_cmp(str(g.version), '3.0') < 0:
+                viol('label-pre3-in-memory', ','.join(sorted({kk for _, kk in where})), ['op=' + op],
+                     'the derived grid (%s) holds 3.0-only values at %r but reports version %s' % (op, sorted(set(where)), g.version))
+                return
+            continue
         if op in ('setitem', 'row_mutate') and len(g) == 0:
             g.append({'a': 'seed'})       # harness seeding, not part of the judged operation
         before = snapshot(hszinc, g)
@@ -212,6 +234,20 @@ def judge_history(ctx, hszinc, ver, ctor, hist):
                 viol('raises:' + exc, k, ['op=' + op], 'bypass store raised %s' % exc)
                 return
             bypassed = bypassed or is3
+            continue
+        if is3 and derived and ref_cmp(before[0], '3.0') < 0:
+            if exc == 'ValueError':
+                if snapshot(hszinc, g) != before:
+                    viol('refused-but-changed', k, ['op=' + op, 'derived'], 'refused step %d %s changed the derived grid' % (step, op))
+                    return
+                continue
+            if exc is not None:
+                viol('refusal-not-ValueError:' + exc, k, ['op=' + op, 'derived'], 'step %d %s refused %s with %s' % (step, op, k, exc))
+                return
+            stored3 = True
+            if ref_cmp(str(g.version), '3.0') < 0:
+                viol('label-pre3-in-memory', k, ['op=' + op, 'derived'], 'derived grid accepted a %s but still reports %s' % (k, g.version))
+                return
             continue
         if is3 and pre3:
             ctx.count('refusals expected')
@@ -454,7 +490,7 @@ def run_shard(spec, ctx):
     if spec['part'] == 'hist':
         ver = spec['version']
         kinds = spec['kinds']
-        steps = [(op, k) for op in OPS for k in kinds]
+        steps = [(op, k) for op in OPS for k in kinds] + [(op, 'str') for op in DERIVE]
         ctors = [None] + [(op, k) for op in CTOR_OPS for k in kinds]
         n = 0
         cs, cn = spec.get('cslice', [0, 1])
@@ -472,7 +508,7 @@ def run_shard(spec, ctx):
     else:
         box = attach_invariant(hszinc)
         r = random.Random(ctx.seed * 1000003 + 10)
-        ops = [o for o in OPS if o not in BYPASS]
+        ops = [o for o in OPS if o not in BYPASS] + DERIVE
         for i in range(spec['n']):
             ver = r.choice(VERSIONS)
             ctor = None if r.random() < 0.6 else [r.choice(CTOR_OPS), r.choice(K3 + K2)]
